@@ -34,6 +34,27 @@ check('C01', 'DESIGN.md 4/C01',
       'reading of the v5 protocol text in vf/refcodec.py. Bare top-level '
       'numeric payloads are judged on the encoder side only.')
 
+MB = ('model-based stateful property testing (Hypothesis-generated operation '
+      'histories interpreted against the real classes on real engine.io '
+      'sockets and against an executable reference model, compared after '
+      'every step)')
+TB = ('Trusts python-engineio (Socket.receive / queue / close used as they '
+      'are, HTTP and WebSocket I/O cut away), the harness transport in '
+      'vf/eio_server.py and the independent peer codec vf/wire.py.')
+
+check('C03', 'DESIGN.md 4/C03', MB,
+      'Histories of connects, room changes, disconnects of all three kinds '
+      'and emits (room / list / sid / broadcast, skip_sid) on both servers; '
+      'after every emit the exact multiset of recipient transports and after '
+      'every step rooms(sid) are compared with a set-based model. No '
+      'counterexample in the counted histories.', TB)
+check('C05', 'DESIGN.md 4/C05', MB,
+      'Bursts of text/binary events with colliding ids from several clients, '
+      'frames of different transports interleaved, async_handlers on/off '
+      '(background tasks run in generated order), both servers; invocation '
+      'log and per-transport ACK frames compared with the documented rule.',
+      TB)
+
 NOT_BUILT = {}
 
 
